@@ -58,6 +58,16 @@ Definition kname (k:lkind) : string :=
 (* operand order: code then array (forEach, count) or array then code (apply, select, findIf) *)
 Definition kca (k:lkind) : bool := match k with KForEach | KCount => true | _ => false end.
 
+(* for "_i" from a to b step c do {..}: the operators that fill in the loop description, the end test of the loop, and the
+   loop variable as the body left it (the machine reads it back from the frame: assigning it in the body changes the iteration) *)
+Definition for_set (m:string) (fr to st x:Z) : option (Z*Z*Z) :=
+  if String.eqb m "from" then Some (x, to, st) else if String.eqb m "to" then Some (fr, x, st)
+  else if String.eqb m "step" then Some (fr, to, x) else None.
+Definition beyond (to st u:Z) : bool := if Z.leb 0 st then Z.ltb to u else Z.ltb u to.
+Definition for_empty (fr to st:Z) : bool := andb (negb (Z.eqb st 0)) (if Z.ltb 0 st then Z.ltb to fr else Z.ltb fr to).
+Definition top_var (s:sstate) (k:string) : option rvalue :=
+  match st_scopes s with sc :: _ => assoc k (sc_vars sc) | [] => None end.
+
 (* lazy && / and, || / or with a code block on the right: the left value that makes the right side unnecessary *)
 Definition lazy_skip (n:string) : option bool :=
   if orb (String.eqb n "&&") (String.eqb n "and") then Some false
@@ -105,6 +115,13 @@ Inductive zev : sstate -> expr -> rvalue -> sstate -> Prop :=
     zev s (EBinary n a b) (RBool sk) s2
 | ZLazyEnter s n a b x sk s1 s2 out s3 : lazy_skip (lower n) = Some sk -> zev s a (RBool (negb sk)) s1 -> zev s1 b (RCode x) s2 ->
     zblock (enter s2 []) RNil x out s3 -> zev s (EBinary n a b) (val_of out) (pop_scope s3)
+| ZForVar s n a var s1 : lower n = "for" -> (forall k, a <> ENum k) -> zev s a (RStr var) s1 -> zev s (EUnary n a) (RFor var 0 0 1) s1
+| ZForSet s n a b var fr to st x fr' to' st' s1 s2 : for_set (lower n) fr to st x = Some (fr', to', st') ->
+    zev s a (RFor var fr to st) s1 -> zev s1 b (RNum x) s2 -> zev s (EBinary n a b) (RFor var fr' to' st') s2
+| ZForSkip s n a b var fr to st body s1 s2 : lower n = "do" -> zev s a (RFor var fr to st) s1 -> zev s1 b (RCode body) s2 ->
+    for_empty fr to st = true -> zev s (EBinary n a b) RNil s2
+| ZForLoop s n a b var fr to st body s1 s2 acc s3 : lower n = "do" -> zev s a (RFor var fr to st) s1 -> zev s1 b (RCode body) s2 ->
+    for_empty fr to st = false -> leaf_first body -> zfor var to st s2 fr true body acc s3 -> zev s (EBinary n a b) acc s3
 with zevs : sstate -> list expr -> list rvalue -> sstate -> Prop :=
 | ZNil s : zevs s [] [] s
 | ZCons s e v s1 l vs s2 : zev s e v s1 -> nonnil v -> zevs s1 l vs s2 -> zevs s (e :: l) (v :: vs) s2
@@ -132,14 +149,28 @@ with ziter : lkind -> sstate -> list rvalue -> nat -> list stmt -> rvalue -> rva
     kstep k x i reg acc = Some (false, acc1) -> kok k reg -> ziter k s (x :: rest) i body acc acc1 (pop_scope s1)
 | ZIterExit k s x rest i body acc v s1 :
     zblock (enter s (kvars k i x)) (match i with O => RNil | _ => RNone end) body (BExit v) s1 ->
-    ziter k s (x :: rest) i body acc v (pop_scope s1).
+    ziter k s (x :: rest) i body acc v (pop_scope s1)
+(* the rounds of a for loop from the value x of the loop variable on *)
+with zfor : string -> Z -> Z -> sstate -> Z -> bool -> list stmt -> rvalue -> sstate -> Prop :=
+| ZForRound var to st s x (first:bool) body reg s1 y acc' s' :
+    zblock (enter s [(lower var, RNum x)]) (if first then RNil else RNone) body (BNorm reg) s1 ->
+    top_var s1 (lower var) = Some (RNum y) -> beyond to st (y + st)%Z = false ->
+    zfor var to st (pop_scope s1) (y + st)%Z false body acc' s' -> zfor var to st s x first body acc' s'
+| ZForLast var to st s x (first:bool) body reg s1 y :
+    zblock (enter s [(lower var, RNum x)]) (if first then RNil else RNone) body (BNorm reg) s1 ->
+    top_var s1 (lower var) = Some (RNum y) -> beyond to st (y + st)%Z = true ->
+    zfor var to st s x first body (res_of reg) (pop_scope s1)
+| ZForExit var to st s x (first:bool) body v s1 :
+    zblock (enter s [(lower var, RNum x)]) (if first then RNil else RNone) body (BExit v) s1 ->
+    zfor var to st s x first body v (pop_scope s1).
 
 Scheme zev_i := Induction for zev Sort Prop
   with zevs_i := Induction for zevs Sort Prop
   with zstmt_i := Induction for zstmt Sort Prop
   with zblock_i := Induction for zblock Sort Prop
-  with ziter_i := Induction for ziter Sort Prop.
-Combined Scheme z_ind from zev_i, zevs_i, zstmt_i, zblock_i, ziter_i.
+  with ziter_i := Induction for ziter Sort Prop
+  with zfor_i := Induction for zfor Sort Prop.
+Combined Scheme z_ind from zev_i, zevs_i, zstmt_i, zblock_i, ziter_i, zfor_i.
 
 Lemma zblock_val s reg b out s' : zblock s reg b out s' -> val_of out <> RNone.
 Proof. induction 1; cbn [val_of]; try assumption; match goal with |- res_of ?r <> _ => destruct r; discriminate end. Qed.
@@ -160,13 +191,20 @@ Proof.
   - match goal with H : zblock _ _ _ (BExit _) _ |- _ => exact (zblock_val _ _ _ _ _ H) end.
 Qed.
 
+Lemma zfor_val var to st s x first body acc s' : zfor var to st s x first body acc s' -> acc <> RNone.
+Proof.
+  induction 1; [assumption|destruct reg; discriminate|].
+  match goal with H : zblock _ _ _ (BExit _) _ |- _ => exact (zblock_val _ _ _ _ _ H) end.
+Qed.
+
 Lemma zev_not_none s e v s' : zev s e v s' -> v <> RNone.
 Proof.
   destruct 1; try discriminate;
     try (match goal with H : nonnil _ |- _ => exact (proj2 H) end);
     try (match goal with H : zblock _ _ _ _ _ |- _ => exact (zblock_val _ _ _ _ _ H) end);
     try (match goal with H : ziter ?k _ _ _ _ _ _ _ |- _ => apply (ziter_val _ _ _ _ _ _ _ _ H); destruct k; discriminate end);
-    try (match goal with |- kinit ?k <> _ => destruct k; discriminate end).
+    try (match goal with |- kinit ?k <> _ => destruct k; discriminate end);
+    try (match goal with H : zfor _ _ _ _ _ _ _ _ _ |- _ => exact (zfor_val _ _ _ _ _ _ _ _ _ H) end).
   - match goal with H : pev _ _ _ _ |- _ => exact (proj2 (data_not_nil _ (pev_data _ _ _ _ H))) end.
   - match goal with H : pure_unary _ _ = Some _ |- _ => intros ->; exact (pure_unary_nonnil _ _ _ H eq_refl) end.
   - match goal with H : pure_binary _ _ _ = Some _ |- _ => intros ->; exact (pure_binary_nonnil _ _ _ _ H eq_refl) end.
@@ -595,6 +633,46 @@ Proof.
   apply String.eqb_eq in Ex, Ei. subst kk. discriminate Ei.
 Qed.
 
+(* the behaviour of a for loop: it reads the loop variable back from the frame *)
+Lemma for_round var to st y r c f rest0 top below :
+  c_frames c = f :: rest0 -> c_values c = top ++ below -> length below = f_base f ->
+  assoc (lower var) (f_vars f) = Some (VNum y) -> beyond to st (y + st)%Z = false ->
+  goes_round r c f rest0 (BFor var to st) (BFor var to st) [(lower var, VNum (y + st)%Z)] below.
+Proof.
+  intros EF EV LB AV BY. unfold beyond in BY. eexists. split.
+  - cbn [enact c_frames set_frames f_vars set_pos]. rewrite AV, BY. reflexivity.
+  - rewrite (set_values_same c _ _ EV). apply restart_context; exact LB.
+Qed.
+Lemma for_over var to st y r c f rest0 top below :
+  c_frames c = f :: rest0 -> c_values c = top ++ below ->
+  assoc (lower var) (f_vars f) = Some (VNum y) -> beyond to st (y + st)%Z = true ->
+  loop_over r c f rest0 (BFor var to st) top below.
+Proof.
+  intros EF EV AV BY. unfold beyond in BY. eexists.
+  cbn [enact c_frames set_frames f_vars set_pos]. rewrite AV, BY. rewrite <- (set_values_same c _ _ EV). reflexivity.
+Qed.
+Lemma for_set_vm m var fr to st x fr' to' st' r c : for_set m fr to st x = Some (fr', to', st') ->
+  op_binary m (VFor var fr to st) (VNum x) r c = Ok (r, c, VFor var fr' to' st').
+Proof.
+  unfold for_set. intros H.
+  destruct (String.eqb m "from") eqn:E1; [apply String.eqb_eq in E1; subst m; inversion H; subst; reflexivity|].
+  destruct (String.eqb m "to") eqn:E2; [apply String.eqb_eq in E2; subst m; inversion H; subst; reflexivity|].
+  destruct (String.eqb m "step") eqn:E3; [apply String.eqb_eq in E3; subst m; inversion H; subst; reflexivity|discriminate H].
+Qed.
+Lemma for_do_vm var fr to st code r c :
+  op_binary "do" (VFor var fr to st) (VCode code) r c =
+  if for_empty fr to st then Ok (r, c, VNil)
+  else Ok (r, push_frame c (mk_frame (cur_ns c) code (Some (BFor var to st)) None [(lower var, VNum fr)]), VNil).
+Proof. reflexivity. Qed.
+
+Definition ForRuns (var:string) (to st:Z) (s:sstate) (x:Z) (first:bool) (body:list stmt) (acc':rvalue) (s':sstate) : Prop :=
+  forall r c f fc frest below,
+    AtM (enter s [(lower var, RNum x)]) (if first then RNil else RNone) r c f (fc :: frest) below ->
+    f_code f = compile_block body -> f_pos f = 0 -> f_exit f = Some (BFor var to st) -> f_die f = false ->
+    leaf_first body -> f_ns f = f_ns fc -> f_base fc <= length below ->
+    exists r' c' fc' rest', Steps r r' /\ r' <> r /\ Mach s' r' c' fc' rest' /\ c_values c' = cv acc' :: below /\
+      kept fc fc' /\ Forall2 kept frest rest'.
+
 (* the state at the start of a round: the loop frame at position 0 with the element bound, its behaviour at that index with
    what has been accumulated so far *)
 Definition IterRuns (k:lkind) (s:sstate) (arr:list rvalue) (i:nat) (body:list stmt) (acc acc':rvalue) (s':sstate) : Prop :=
@@ -618,7 +696,8 @@ Theorem vm_runs_z :
          moved f f' /\ f_pos f' = f_pos f + length (flat_map compile_expr l) /\ Forall2 kept rest rest') /\ length l = length vs) /\
   (forall s reg st reg1 s1, zstmt s reg st reg1 s1 -> BlockRuns s reg (compile_stmt st) reg1 s1) /\
   (forall s reg b out s', zblock s reg b out s' -> BodyEnds s reg (compile_block b) out s') /\
-  (forall k s arr i body acc acc' s', ziter k s arr i body acc acc' s' -> IterRuns k s arr i body acc acc' s').
+  (forall k s arr i body acc acc' s', ziter k s arr i body acc acc' s' -> IterRuns k s arr i body acc acc' s') /\
+  (forall var to st s x first body acc s', zfor var to st s x first body acc s' -> ForRuns var to st s x first body acc s').
 Proof.
   apply z_ind.
   - (* pure *) intros s e v HE r c f rest pre post (G & EF & M & B & D) EC EP.
@@ -975,6 +1054,87 @@ Proof.
     split; [exact M4|]. split; [exact EV4|].
     split; [eapply moved_trans; [exact MV1|eapply moved_trans; [exact MV2|eapply moved_trans; [apply (moved_set_pos f2 (S (f_pos f2)))|apply kept_moved; exact K4]]]|].
     split; [rewrite (kept_pos _ _ K4); cbn; rewrite P2, P1; lia|eapply kept_all_trans; [exact K1|eapply kept_all_trans; eassumption]].
+  - (* for "_i" *) intros s n a var s1 HN NL HA IHa r c f rest pre post MA EC EP.
+    rewrite (compile_unary_nonlit n a NL) in *. rewrite app_length. cbn [length]. rewrite <- app_assoc in EC.
+    post_intro (IHa r c f rest pre ([IUnary (lower n)] ++ post) MA EC EP) r1 c1 f1 rest1 S1 M1 EV1 MV1 P1 K1.
+    destruct (after_operands_code f f1 pre _ _ MV1 EC EP P1) as [EC1 EP1].
+    destruct M1 as (G1 & EF1 & MM1 & B1 & D1). destruct MA as (_ & _ & _ & B & _).
+    set (c0 := set_values (set_frames c1 (set_pos f1 (S (f_pos f1)) :: rest1)) (c_values c)).
+    destruct (unary_run r1 c1 f1 rest1 _ _ (lower n) (cv (RStr var)) (c_values c) c0 (cv (RFor var 0 0 1)) G1 EF1 EC1 EP1 EV1) as [S2 G2].
+    { rewrite (moved_base _ _ MV1); exact B. } { discriminate. } { rewrite lower_idem, HN. reflexivity. }
+    { destruct G1 as (_ & _ & _ & _ & _ & _ & SU); exact SU. }
+    eexists _, _, _, rest1. split; [eapply steps_trans; [exact S1|exact S2]|]. split.
+    + split; [exact G2|]. split; [reflexivity|]. split; [apply match_upd, match_set_pos; exact MM1|].
+      split; [cbn; rewrite (moved_base _ _ MV1); lia|rewrite defects_upd_cur; exact D1].
+    + split; [reflexivity|]. split; [eapply moved_trans; [exact MV1|apply moved_set_pos]|]. split; [cbn; rewrite P1; lia|exact K1].
+  - (* from / to / step *) intros s n a b var fr to st x fr' to' st' s1 s2 HN HA IHa HB IHb r c f rest pre post MA EC EP.
+    rewrite compile_binary in *. rewrite !app_length. cbn [length]. rewrite <- !app_assoc in EC.
+    post_intro (IHa r c f rest pre (compile_expr b ++ [IBinary (lower n)] ++ post) MA EC EP) r1 c1 f1 rest1 S1 M1 EV1 MV1 P1 K1.
+    destruct (after_operands_code f f1 pre _ _ MV1 EC EP P1) as [EC1 EP1].
+    post_intro (IHb r1 c1 f1 rest1 (pre ++ compile_expr a) ([IBinary (lower n)] ++ post) M1 EC1 EP1) r2 c2 f2 rest2 S2 M2 EV2 MV2 P2 K2.
+    destruct (after_operands_code f1 f2 _ _ _ MV2 EC1 EP1 P2) as [EC2 EP2].
+    destruct M2 as (G2 & EF2 & MM2 & B2 & D2). destruct MA as (_ & _ & _ & B & _).
+    rewrite EV1 in EV2.
+    set (c0 := set_values (set_frames c2 (set_pos f2 (S (f_pos f2)) :: rest2)) (c_values c)).
+    destruct (binary_run r2 c2 f2 rest2 _ _ (lower n) (cv (RFor var fr to st)) (cv (RNum x)) (c_values c) c0 (cv (RFor var fr' to' st')) G2 EF2 EC2 EP2 EV2) as [S3 G3].
+    { rewrite (moved_base _ _ MV2), (moved_base _ _ MV1); exact B. } { discriminate. } { discriminate. }
+    { rewrite lower_idem. apply for_set_vm. exact HN. }
+    { destruct G2 as (_ & _ & _ & _ & _ & _ & SU); exact SU. }
+    eexists _, _, _, rest2. split; [eapply steps_trans; [exact S1|eapply steps_trans; [exact S2|exact S3]]|]. split.
+    + split; [exact G3|]. split; [reflexivity|]. split; [apply match_upd, match_set_pos; exact MM2|].
+      split; [cbn; rewrite (moved_base _ _ MV2), (moved_base _ _ MV1); lia|rewrite defects_upd_cur; exact D2].
+    + split; [reflexivity|]. split; [eapply moved_trans; [exact MV1|eapply moved_trans; [exact MV2|apply moved_set_pos]]|].
+      split; [cbn; rewrite P2, P1; lia|eapply kept_all_trans; eassumption].
+  - (* for .. do {..} over an empty range *) intros s n a b var fr to st body s1 s2 HN HA IHa HB IHb HE r c f rest pre post MA EC EP.
+    rewrite compile_binary in *. rewrite !app_length. cbn [length]. rewrite <- !app_assoc in EC.
+    post_intro (IHa r c f rest pre (compile_expr b ++ [IBinary (lower n)] ++ post) MA EC EP) r1 c1 f1 rest1 S1 M1 EV1 MV1 P1 K1.
+    destruct (after_operands_code f f1 pre _ _ MV1 EC EP P1) as [EC1 EP1].
+    post_intro (IHb r1 c1 f1 rest1 (pre ++ compile_expr a) ([IBinary (lower n)] ++ post) M1 EC1 EP1) r2 c2 f2 rest2 S2 M2 EV2 MV2 P2 K2.
+    destruct (after_operands_code f1 f2 _ _ _ MV2 EC1 EP1 P2) as [EC2 EP2].
+    destruct M2 as (G2 & EF2 & MM2 & B2 & D2). destruct MA as (_ & _ & _ & B & _).
+    rewrite EV1 in EV2.
+    set (c0 := set_values (set_frames c2 (set_pos f2 (S (f_pos f2)) :: rest2)) (c_values c)).
+    destruct (binary_run r2 c2 f2 rest2 _ _ (lower n) (cv (RFor var fr to st)) (cv (RCode body)) (c_values c) c0 VNil G2 EF2 EC2 EP2 EV2) as [S3 G3].
+    { rewrite (moved_base _ _ MV2), (moved_base _ _ MV1); exact B. } { discriminate. } { discriminate. }
+    { rewrite lower_idem, HN. cbn [cv]. rewrite for_do_vm, HE. reflexivity. }
+    { destruct G2 as (_ & _ & _ & _ & _ & _ & SU); exact SU. }
+    eexists _, _, _, rest2. split; [eapply steps_trans; [exact S1|eapply steps_trans; [exact S2|exact S3]]|]. split.
+    + split; [exact G3|]. split; [reflexivity|]. split; [apply match_upd, match_set_pos; exact MM2|].
+      split; [cbn; rewrite (moved_base _ _ MV2), (moved_base _ _ MV1); lia|rewrite defects_upd_cur; exact D2].
+    + split; [reflexivity|]. split; [eapply moved_trans; [exact MV1|eapply moved_trans; [exact MV2|apply moved_set_pos]]|].
+      split; [cbn; rewrite P2, P1; lia|eapply kept_all_trans; eassumption].
+  - (* for .. do {..} *) intros s n a b var fr to st body s1 s2 acc s3 HN HA IHa HB IHb HE LF HI IHi r c f rest pre post MA EC EP.
+    rewrite compile_binary in *. rewrite !app_length. cbn [length]. rewrite <- !app_assoc in EC.
+    post_intro (IHa r c f rest pre (compile_expr b ++ [IBinary (lower n)] ++ post) MA EC EP) r1 c1 f1 rest1 S1 M1 EV1 MV1 P1 K1.
+    destruct (after_operands_code f f1 pre _ _ MV1 EC EP P1) as [EC1 EP1].
+    post_intro (IHb r1 c1 f1 rest1 (pre ++ compile_expr a) ([IBinary (lower n)] ++ post) M1 EC1 EP1) r2 c2 f2 rest2 S2 M2 EV2 MV2 P2 K2.
+    destruct (after_operands_code f1 f2 _ _ _ MV2 EC1 EP1 P2) as [EC2 EP2].
+    destruct M2 as (G2 & EF2 & MM2 & B2 & D2). destruct MA as (_ & _ & _ & B & _).
+    rewrite EV1 in EV2.
+    set (c0 := set_values (set_frames c2 (set_pos f2 (S (f_pos f2)) :: rest2)) (c_values c)).
+    set (lf := mk_frame (cur_ns c0) (compile_block body) (Some (BFor var to st)) None [(lower var, VNum fr)]).
+    destruct (binary_run r2 c2 f2 rest2 _ _ (lower n) (cv (RFor var fr to st)) (cv (RCode body)) (c_values c)
+                (push_frame c0 lf) VNil G2 EF2 EC2 EP2 EV2) as [S3 G3].
+    { rewrite (moved_base _ _ MV2), (moved_base _ _ MV1); exact B. } { discriminate. } { discriminate. }
+    { rewrite lower_idem, HN. cbn [cv]. rewrite for_do_vm, HE. reflexivity. }
+    { destruct G2 as (_ & _ & _ & _ & _ & _ & SU); exact SU. }
+    set (nf := set_base lf (length (c_values c))).
+    destruct (IHi (upd_cur r2 (push_value (push_frame c0 lf) VNil)) (push_value (push_frame c0 lf) VNil) nf (set_pos f2 (S (f_pos f2))) rest2 (c_values c))
+      as (r4 & c4 & fc4 & rest4 & S4 & _ & M4 & EV4 & K4 & KR4).
+    { split.
+      - split; [exact G3|]. split; [reflexivity|]. split.
+        + apply match_upd. destruct MM2 as [F N]. split; [|exact N]. cbn. inversion F as [|sc f0 scs fs FM F' E1 E2]; subst.
+          constructor; [|constructor; [exact FM|exact F']].
+          split; [apply (vars_match_mvars [(lower var, RNum fr)])|split; [|reflexivity]].
+          cbn. destruct FM as (_ & NS & _). unfold cur_ns_of. rewrite <- E1. exact NS.
+        + split; [cbn; lia|rewrite defects_upd_cur; exact D2].
+      - split; [reflexivity|]. exists [VNil]. split; [reflexivity|]. split; [reflexivity|discriminate]. }
+    { reflexivity. } { reflexivity. } { reflexivity. } { reflexivity. } { exact LF. } { reflexivity. }
+    { cbn. rewrite (moved_base _ _ MV2), (moved_base _ _ MV1); exact B. }
+    eexists _, _, fc4, rest4. split; [eapply steps_trans; [exact S1|eapply steps_trans; [exact S2|eapply steps_trans; [exact S3|exact S4]]]|].
+    split; [exact M4|]. split; [exact EV4|].
+    split; [eapply moved_trans; [exact MV1|eapply moved_trans; [exact MV2|eapply moved_trans; [apply (moved_set_pos f2 (S (f_pos f2)))|apply kept_moved; exact K4]]]|].
+    split; [rewrite (kept_pos _ _ K4); cbn; rewrite P2, P1; lia|eapply kept_all_trans; [exact K1|eapply kept_all_trans; eassumption]].
   - (* no elements *) intros s r c f rest pre post MA EC EP. split; [|reflexivity].
     exists r, c, f, rest. split; [apply StepsRefl|]. split; [exact MA|]. split; [reflexivity|]. split; [apply moved_refl|].
     split; [cbn; lia|apply kept_all_refl].
@@ -1174,6 +1334,79 @@ Proof.
     { destruct A as ((G0 & EF0 & _) & _). destruct G0 as (C0 & _). destruct M1 as ((C1 & _) & EF1 & _). eapply neq_by_frames; [exact C0|exact C1|].
       rewrite EF1, EF0. cbn. rewrite (forall2_length _ _ _ KR1). lia. }
     split; [exact M1|]. split; [exact EV1|]. split; assumption.
+  - (* a round of for, then the rest *) intros var to st s x first body reg s1 y acc' s' HB IHb TV BY HI IHi.
+    intros r c f fc frest below A EC EP EX ED LF ENS HBf.
+    specialize (IHb r c f fc frest below [] A EC EP HBf). cbn in IHb.
+    destruct IHb as (r1 & c1 & f1 & rest1 & S1 & A1 & MV1 & P1 & K1).
+    inversion K1 as [|fa fc1 ra frest1 Ka Kb Ea Eb]; subst.
+    destruct A as ((G0 & EF0 & _) & _).
+    destruct A1 as ((G1 & EF1 & (F1 & N1) & B1 & D1) & LB1 & top1 & EV1 & RR1).
+    assert (XE : f_exit f1 = Some (BFor var to st)) by (rewrite (moved_exit _ _ MV1); exact EX).
+    assert (XD : f_die f1 = false) by (rewrite (moved_die _ _ MV1); exact ED).
+    assert (XP : f_pos f1 = length (f_code f1)) by (rewrite P1, (moved_code _ _ MV1); reflexivity).
+    inversion F1 as [|sc1 f0 scs1 fs1 FM1 F1' E1 E2]; subst.
+    assert (AV : assoc (lower var) (f_vars f1) = Some (VNum y)).
+    { destruct FM1 as (V1 & _). rewrite (V1 (lower var)). unfold top_var in TV. rewrite <- E1 in TV. rewrite TV. reflexivity. }
+    destruct LF as (i0 & code' & LC & LL).
+    assert (EC1 : f_code f1 = i0 :: code') by (rewrite (moved_code _ _ MV1), EC; exact LC).
+    pose proof (for_round var to st y r1 c1 f1 (fc1 :: frest1) top1 below EF1 EV1 LB1 AV BY) as GR.
+    pose proof (loop_back r1 c1 f1 (fc1 :: frest1) _ _ _ i0 code' below G1 EF1 XP XE XD EC1 LL GR) as LBk.
+    set (fV := round_frame f1 (BFor var to st) [(lower var, VNum (y + st)%Z)]) in *.
+    set (cV := set_values (set_frames c1 (fV :: fc1 :: frest1)) below) in *.
+    destruct (IHi (upd_cur r1 cV) cV fV fc1 frest1 below) as (r4 & c4 & fc4 & rest4 & S4 & N4 & M4 & EV4 & K4 & KR4).
+    { split.
+      - split; [apply (good_upd r1 c1 cV G1); destruct G1 as (_ & _ & _ & _ & _ & _ & SU); exact SU|]. split; [reflexivity|]. split.
+        + apply match_upd. split; [|exact N1]. cbn. rewrite <- E1. cbn. constructor; [|exact F1'].
+          split; [|split; [|cbn; exact (proj2 (proj2 FM1))]].
+          * cbn. apply (vars_match_mvars [(lower var, RNum (y + st)%Z)]).
+          * cbn. rewrite (moved_ns _ _ MV1), ENS, <- (kept_ns _ _ Ka).
+            inversion F1' as [|sc2 f00 scs2 fs2 FM2 F1'' E3 E4]. destruct FM2 as (_ & NS2 & _).
+            unfold cur_ns_of, pop_scope. cbn. rewrite <- E1. cbn. rewrite <- E3. exact NS2.
+        + split; [cbn; rewrite LB1; lia|rewrite defects_upd_cur; exact D1].
+      - split; [cbn; exact LB1|]. exists []. split; [reflexivity|reflexivity]. }
+    { cbn. rewrite (moved_code _ _ MV1). exact EC. } { reflexivity. } { reflexivity. } { cbn. exact XD. }
+    { exists i0, code'. split; assumption. }
+    { cbn. rewrite (moved_ns _ _ MV1), ENS, (kept_ns _ _ Ka). reflexivity. }
+    { rewrite (kept_base _ _ Ka). exact HBf. }
+    exists r4, c4, fc4, rest4. split; [eapply steps_trans; [exact S1|eapply virtual_start; [exact LBk|exact S4|exact N4]]|].
+    split.
+    { destruct G0 as (C0 & _). destruct M4 as ((C4 & _) & EF4 & _). eapply neq_by_frames; [exact C0|exact C4|].
+      rewrite EF4, EF0. cbn. rewrite (forall2_length _ _ _ KR4), (forall2_length _ _ _ Kb). lia. }
+    split; [exact M4|]. split; [exact EV4|]. split; [eapply kept_trans; eassumption|eapply kept_all_trans; eassumption].
+  - (* the last round of for *) intros var to st s x first body reg s1 y HB IHb TV BY.
+    intros r c f fc frest below A EC EP EX ED LF ENS HBf.
+    specialize (IHb r c f fc frest below [] A EC EP HBf). cbn in IHb.
+    destruct IHb as (r1 & c1 & f1 & rest1 & S1 & A1 & MV1 & P1 & K1).
+    inversion K1 as [|fa fc1 ra frest1 Ka Kb Ea Eb]; subst.
+    destruct A as ((G0 & EF0 & _) & _).
+    destruct A1 as ((G1 & EF1 & (F1 & N1) & B1 & D1) & LB1 & top1 & EV1 & RR1).
+    assert (XE : f_exit f1 = Some (BFor var to st)) by (rewrite (moved_exit _ _ MV1); exact EX).
+    assert (XD : f_die f1 = false) by (rewrite (moved_die _ _ MV1); exact ED).
+    assert (XP : f_pos f1 = length (f_code f1)) by (rewrite P1, (moved_code _ _ MV1); reflexivity).
+    inversion F1 as [|sc1 f0 scs1 fs1 FM1 F1' E1 E2]; subst.
+    assert (AV : assoc (lower var) (f_vars f1) = Some (VNum y)).
+    { destruct FM1 as (V1 & _). rewrite (V1 (lower var)). unfold top_var in TV. rewrite <- E1 in TV. rewrite TV. reflexivity. }
+    pose proof (for_over var to st y r1 c1 f1 (fc1 :: frest1) top1 below EF1 EV1 AV BY) as LO.
+    destruct (complete_loop r1 c1 f1 fc1 frest1 _ top1 below G1 D1 EF1 XP XE XD LO LB1) as [S2 G2].
+    eexists _, _, fc1, frest1. split; [eapply steps_trans; eassumption|]. split.
+    { destruct G0 as (C0 & _). destruct G2 as (C2 & _). eapply neq_by_frames; [exact C0|exact C2|].
+      cbn. rewrite EF0. cbn. rewrite (forall2_length _ _ _ Kb). lia. }
+    split.
+    { split; [exact G2|]. split; [reflexivity|]. split.
+      - apply match_upd. split; [|exact N1]. cbn. rewrite <- E1. cbn. exact F1'.
+      - split; [cbn; rewrite (kept_base _ _ Ka); lia|rewrite defects_upd_cur; exact D1]. }
+    split; [|split; assumption].
+    cbn. f_equal. destruct top1 as [|y0 top1]; cbn in RR1.
+    + rewrite RR1. reflexivity.
+    + destruct RR1 as [-> NN]. destruct reg; reflexivity.
+  - (* a round of for left by exitWith *) intros var to st s x first body v s1 HB IHb.
+    intros r c f fc frest below A EC EP EX ED LF ENS HBf.
+    specialize (IHb r c f fc frest below [] A EC EP HBf). cbn in IHb.
+    destruct IHb as (r1 & c1 & fc1 & rest1 & S1 & M1 & EV1 & K1 & KR1).
+    exists r1, c1, fc1, rest1. split; [exact S1|]. split.
+    { destruct A as ((G0 & EF0 & _) & _). destruct G0 as (C0 & _). destruct M1 as ((C1 & _) & EF1 & _). eapply neq_by_frames; [exact C0|exact C1|].
+      rewrite EF1, EF0. cbn. rewrite (forall2_length _ _ _ KR1). lia. }
+    split; [exact M1|]. split; [exact EV1|]. split; assumption.
 Qed.
 
 (* ---------------------------------------------------------------- the reference semantics *)
@@ -1230,6 +1463,40 @@ Proof.
   discriminate H.
 Qed.
 
+(* the for loop of eval_binary, named *)
+Definition for_loop_f (f:nat) (var:string) (to step:Z) (body:list stmt) :=
+  fix loop (k:nat) (s:sstate) (x:Z) (first:bool) : outcome * sstate :=
+    match k with O => (OFuel, s) | S k =>
+    let '(o, s1) := eval_block f (push_scope s (plain_scope_f s [(lower var, RNum x)])) body (if first then RNil else RNone) in
+    let s2 := pop_scope s1 in
+    match o with
+    | ONormal v0 =>
+        let v := match v0 with RNone => RNil | _ => v0 end in
+        match st_scopes s1 with
+        | sc :: _ => match assoc (lower var) (sc_vars sc) with
+                     | Some (RNum y) => let u := (y + step)%Z in
+                                        if (if Z.leb 0 step then Z.ltb to u else Z.ltb u to) then (ONormal v, s2)
+                                        else loop k s2 u false
+                     | _ => (ONormal v, s2) end
+        | [] => (ONormal v, s2) end
+    | OExit v => (ONormal v, s2)
+    | OBreak name v => match st_scopes s1 with
+                       | sc' :: _ => if String.eqb (sc_name sc') name then (ONormal v, s2) else (OBreak name v, s2)
+                       | [] => (OBreak name v, s2) end
+    | other => (other, s2) end end.
+Lemma eval_binary_for f F s var fr to st body :
+  eval_binary (S f) s "do" (RFor var fr to st) (RCode body) (in_scope_f F) plain_scope_f =
+  if for_empty fr to st then (ONormal RNil, s) else for_loop_f f var to st body f s fr true.
+Proof. reflexivity. Qed.
+Lemma for_set_ref m var fr to st x fr' to' st' f F s : for_set m fr to st x = Some (fr', to', st') ->
+  eval_binary (S f) s m (RFor var fr to st) (RNum x) (in_scope_f F) plain_scope_f = (ONormal (RFor var fr' to' st'), s).
+Proof.
+  unfold for_set. intros H.
+  destruct (String.eqb m "from") eqn:E1; [apply String.eqb_eq in E1; subst m; inversion H; subst; reflexivity|].
+  destruct (String.eqb m "to") eqn:E2; [apply String.eqb_eq in E2; subst m; inversion H; subst; reflexivity|].
+  destruct (String.eqb m "step") eqn:E3; [apply String.eqb_eq in E3; subst m; inversion H; subst; reflexivity|discriminate H].
+Qed.
+
 Theorem ref_runs_z :
   (forall s e v s', zev s e v s' -> exists f0, forall f, f0 <= f -> eval f s e = (ONormal v, s')) /\
   (forall s l vs s', zevs s l vs s' -> exists f0, forall f, f0 <= f -> forall acc, go_arr f s l acc = (ONormal (RArr (rev acc ++ vs)), s')) /\
@@ -1237,7 +1504,9 @@ Theorem ref_runs_z :
       eval_block (S f) s (st :: rest) reg = cont f rest s1 reg1) /\
   (forall s reg b out s', zblock s reg b out s' -> exists f0, forall f, f0 <= f -> eval_block f s b reg = (oc out, s')) /\
   (forall k s arr i body acc acc' s', ziter k s arr i body acc acc' s' -> exists f0, forall f, f0 <= f -> forall kk, length arr < kk ->
-      iterate_f f kk s arr i body (kwith k) acc (kstep k) = (ONormal acc', s')).
+      iterate_f f kk s arr i body (kwith k) acc (kstep k) = (ONormal acc', s')) /\
+  (forall var to st s x first body acc s', zfor var to st s x first body acc s' -> exists f0 k0, forall f, f0 <= f -> forall k, k0 <= k ->
+      for_loop_f f var to st body k s x first = (ONormal acc, s')).
 Proof.
   apply z_ind.
   - (* pure *) intros s e v HE. exists (esize e). intros f L. exact (proj2 (proj1 (pure_ref _ _) e v HE) s f (renv_ok_of s) L).
@@ -1320,6 +1589,20 @@ Proof.
     rewrite eval_S_binary, (IHa (S f)), (IHb (S f)) by lia.
     transitivity (eval_binary (S f) s2 (lower n) (RBool (negb sk)) (RCode x) (in_scope_f (S f)) plain_scope_f); [reflexivity|].
     rewrite (proj1 (lazy_ref _ sk f (S f) s2 x HN)). apply in_scope_out. apply IHx. lia.
+  - (* for "_i" *) intros s n a var s1 HN NL HA [fa IHa]. exists (S (S fa)). intros [|[|f]] L; try lia.
+    rewrite (eval_S_unary _ _ _ _ NL), (IHa (S f)) by lia. rewrite HN. reflexivity.
+  - (* from / to / step *) intros s n a b var fr to st x fr' to' st' s1 s2 HN HA [fa IHa] HB [fb IHb]. exists (S (S (fa + fb))). intros [|[|f]] L; try lia.
+    rewrite eval_S_binary, (IHa (S f)), (IHb (S f)) by lia.
+    exact (for_set_ref _ var fr to st x fr' to' st' f (S f) s2 HN).
+  - (* for over an empty range *) intros s n a b var fr to st body s1 s2 HN HA [fa IHa] HB [fb IHb] HE. exists (S (S (fa + fb))). intros [|[|f]] L; try lia.
+    rewrite eval_S_binary, (IHa (S f)), (IHb (S f)) by lia. rewrite HN.
+    transitivity (eval_binary (S f) s2 "do" (RFor var fr to st) (RCode body) (in_scope_f (S f)) plain_scope_f); [reflexivity|].
+    rewrite eval_binary_for, HE. reflexivity.
+  - (* for *) intros s n a b var fr to st body s1 s2 acc s3 HN HA [fa IHa] HB [fb IHb] HE LF HI (fi & ki & IHi). exists (S (S (fa + fb + fi + ki))).
+    intros [|f] L; [lia|]. rewrite eval_S_binary, (IHa f), (IHb f) by lia. rewrite HN.
+    destruct f as [|f]; [lia|].
+    transitivity (eval_binary (S f) s2 "do" (RFor var fr to st) (RCode body) (in_scope_f (S f)) plain_scope_f); [reflexivity|].
+    rewrite eval_binary_for, HE. apply IHi; lia.
   - (* no elements *) intros s. exists 0. intros f _ acc. cbn. rewrite app_nil_r. reflexivity.
   - (* elements *) intros s e v s1 l vs s2 HE [fe IHe] NN HL [fl IHl]. exists (fe + fl). intros f L acc.
     cbn [go_arr]. rewrite (IHe f) by lia. fold (go_arr f).
@@ -1356,5 +1639,19 @@ Proof.
   - (* a round left by exitWith *) intros k s x rest0 i body acc v s1 HB [fb IHb]. exists fb.
     intros f L [|kk] LK; [lia|]. cbn [iterate_f]. fold (iterate_f f). rewrite kvars_iter.
     change (push_scope s (plain_scope_f s (kvars k i x))) with (enter s (kvars k i x)).
+    rewrite (IHb f) by lia. reflexivity.
+  - (* a round of for, then the rest *) intros var to st s x first body reg s1 y acc' s' HB [fb IHb] TV BY HI (fi & ki & IHi). exists (fb + fi), (S ki).
+    intros f L [|k] LK; [lia|]. cbn [for_loop_f]. fold (for_loop_f f var to st body).
+    change (push_scope s (plain_scope_f s [(lower var, RNum x)])) with (enter s [(lower var, RNum x)]).
+    rewrite (IHb f) by lia. cbn [oc]. unfold top_var in TV. destruct (st_scopes s1) as [|sc scs] eqn:ES; [discriminate TV|]. rewrite TV.
+    unfold beyond in BY. cbv zeta. rewrite BY. apply IHi; lia.
+  - (* the last round of for *) intros var to st s x first body reg s1 y HB [fb IHb] TV BY. exists fb, 1.
+    intros f L [|k] LK; [lia|]. cbn [for_loop_f]. fold (for_loop_f f var to st body).
+    change (push_scope s (plain_scope_f s [(lower var, RNum x)])) with (enter s [(lower var, RNum x)]).
+    rewrite (IHb f) by lia. cbn [oc]. unfold top_var in TV. destruct (st_scopes s1) as [|sc scs] eqn:ES; [discriminate TV|]. rewrite TV.
+    unfold beyond in BY. cbv zeta. rewrite BY. reflexivity.
+  - (* a round of for left by exitWith *) intros var to st s x first body v s1 HB [fb IHb]. exists fb, 1.
+    intros f L [|k] LK; [lia|]. cbn [for_loop_f]. fold (for_loop_f f var to st body).
+    change (push_scope s (plain_scope_f s [(lower var, RNum x)])) with (enter s [(lower var, RNum x)]).
     rewrite (IHb f) by lia. reflexivity.
 Qed.
